@@ -327,6 +327,21 @@ def _flatten(op, items):
     return out
 
 
+def _never_none(v) -> bool:
+    """v is a number / bytes / freshly built object - never None"""
+    k = v[0]
+    if k == "c":
+        return v[1] is not None
+    if k in ("unp", "pack", "bin", "nary", "new", "newb", "lst", "tup", "fstr", "set", "dct"):
+        return True
+    if k == "un":
+        return v[1] in ("-", "~")
+    if k == "call":
+        return v[1] in (("g", "int"), ("g", "float"), ("g", "len"), ("g", "str"), ("g", "bytes"), ("g", "bool"), ("g", "abs"), ("g", "round"),
+                        ("ext", "math", "ceil"), ("ext", "math", "floor"), ("ext", "math", "log"), ("ext", "math", "log2"))
+    return False
+
+
 def _norm_node(n):
     k = n[0]
     if k == "bin":
@@ -461,6 +476,8 @@ def _norm_node(n):
         c, a, b = n[1], n[2], n[3]
         if is_const(c):
             return a if c[1] else b
+        if c[0] == "cmp" and c[1] in ("is", "isnot") and c[3] == ("c", None) and _never_none(c[2]):
+            return a if c[1] == "isnot" else b  # a value that cannot be None
         if a == b:
             return a
         return n
